@@ -31,6 +31,7 @@ func init() {
 			{ID: "R06.3", Template: "T-SIBLING", Text: "interpreter recover path truncates value stack and frame stack", Min: 1},
 			{ID: "R06.4", Template: "T-WHOCALLS", Text: "panic values in the engines run-time files have a documented kind; both engines raise the same set of wasmruntime errors", Min: 10},
 			{ID: "R06.5", Template: "T-CONSULT", Text: "stack ceilings are compared before growth", Min: 3},
+			{ID: "R06.10", Template: "T-TYPESTATE", Text: "no explicit panic (trap) while a mutex locked in the same function, without deferred unlock, is held", Min: 1},
 			{ID: "R06.9", Template: "T-SIBLING", Text: "nested calls in the interpreter pass the running function's own instance as the calling module, so an exit closes the instance that exited (same analysis as C04 R04.13)", Min: 1},
 			{ID: "R06.8", Template: "T-MUSTPASS", Text: "a panic re-thrown by a call's recover path (snapshot restore crossing a nested call) is preceded by the same clean-up as every other failure (genuine defects found and fixed on both engines)", Min: 2},
 			{ID: "R06.6", Template: "T-REPR", Text: "closed-word transitions preserve the exit code in the high half", Min: 2},
@@ -38,6 +39,7 @@ func init() {
 		},
 		Run: runC06,
 		Controls: []core.Control{
+			{Name: "atomic-trap-with-memory-mutex-held", File: "internal/engine/interpreter/interpreter.go", Old: "\t\t\t\t\tmemoryInst.Mux.Unlock()\n\t\t\t\t\tpanic(wasmruntime.ErrRuntimeOutOfBoundsMemoryAccess)", New: "\t\t\t\t\tpanic(wasmruntime.ErrRuntimeOutOfBoundsMemoryAccess)", Rule: "R06.10", Substr: "Mux"},
 			{Name: "exitcode-without-arm", File: "internal/engine/wazevo/call_engine.go", Old: "\t\tcase wazevoapi.ExitCodeUnalignedAtomic:\n\t\t\tpanic(wasmruntime.ErrRuntimeUnalignedAtomic)\n", New: "", Rule: "R06.1", Substr: "ExitCodeUnalignedAtomic"},
 			{Name: "resume-without-reset", File: "internal/engine/wazevo/call_engine.go", Old: "\t\t\tc.execCtx.exitCode = wazevoapi.ExitCodeOK\n\t\t\tafterGoFunctionCallEntrypoint(c.execCtx.goCallReturnAddress, c.execCtxPtr, uintptr(unsafe.Pointer(c.execCtx.stackPointerBeforeGoCall)), c.execCtx.framePointerBeforeGoCall)\n\t\tcase wazevoapi.ExitCodeTableGrow:", New: "\t\t\tafterGoFunctionCallEntrypoint(c.execCtx.goCallReturnAddress, c.execCtxPtr, uintptr(unsafe.Pointer(c.execCtx.stackPointerBeforeGoCall)), c.execCtx.framePointerBeforeGoCall)\n\t\tcase wazevoapi.ExitCodeTableGrow:", Rule: "R06.2", Substr: "ExitCodeGrowMemory"},
 			{Name: "reset-only-after-panic", File: "internal/engine/wazevo/call_engine.go", Old: "\t\tif err != nil {\n\t\t\t// Ensures that we can reuse this callEngine even after an error.\n\t\t\tc.execCtx.exitCode = wazevoapi.ExitCodeOK\n\t\t}\n", New: "\t\tif err != nil && r != nil {\n\t\t\t// Ensures that we can reuse this callEngine even after an error.\n\t\t\tc.execCtx.exitCode = wazevoapi.ExitCodeOK\n\t\t}\n", Rule: "R06.2", Substr: "deferred"},
@@ -54,6 +56,7 @@ func init() {
 }
 
 func runC06(c *core.Ctx) {
+	checkNoPanicWithLockHeld(c)
 	checkInterpCallerInstance(c, "R06.9")
 	checkWatcherStopped(c)
 	c.SSA()
